@@ -74,6 +74,7 @@ pub fn build_live(family: &str, rng: &mut Rng, tier: u32) -> Option<LiveBuilt> {
         "life" => Some(live_life::build(rng, tier)),
         "cancel" => Some(live_cancel::build(rng, tier)),
         "cancel_mutex" => Some(live_cancel::build_mutex(rng, tier)),
+        "cancel_cvlock" => Some(live_cancel::build_cvlock(rng, tier)),
         _ => None,
     }
 }
